@@ -61,23 +61,33 @@ Definition permits (e other : auth) : bool :=
   end.
 
 (* the explicit lattice of referenced types used by the histories:
-   structs A: I, B: I, J, C (unrelated); intersections {I}, {J}, {I,J}; AnyStruct; Account *)
-Inductive base : Type := BA | BB | BC | BI | BJ | BIJ | BAny | BAcct.
+   structs A: I, B: I, J, C (unrelated); intersections {I}, {J}, {I,J}; AnyStruct; Account;
+   resources R: RI, Q (unrelated); intersection {RI}; AnyResource *)
+Inductive base : Type :=
+| BA | BB | BC | BI | BJ | BIJ | BAny | BAcct | BR | BQ | BRI | BAnyRes.
 
 Definition base_eqb (x y : base) : bool :=
   match x, y with
-  | BA, BA | BB, BB | BC, BC | BI, BI | BJ, BJ | BIJ, BIJ | BAny, BAny | BAcct, BAcct => true
+  | BA, BA | BB, BB | BC, BC | BI, BI | BJ, BJ | BIJ, BIJ | BAny, BAny | BAcct, BAcct
+  | BR, BR | BQ, BQ | BRI, BRI | BAnyRes, BAnyRes => true
   | _, _ => false
   end.
 
-(* sema.IsSubType restricted to the lattice (tied to sema by an exhaustive table check every run) *)
+Definition is_resource_base (x : base) : bool :=
+  match x with BR | BQ | BRI | BAnyRes => true | _ => false end.
+
+(* sema.IsSubType restricted to the lattice (tied to sema by an exhaustive table check on every
+   run); struct-kinded and resource-kinded types are unrelated, each side has its own top type *)
 Definition base_sub (x y : base) : bool :=
   match x, y with
-  | _, BAny => true
-  | BA, BA | BB, BB | BC, BC | BI, BI | BJ, BJ | BIJ, BIJ | BAcct, BAcct => true
+  | _, BAny => negb (is_resource_base x)
+  | _, BAnyRes => is_resource_base x
+  | BA, BA | BB, BB | BC, BC | BI, BI | BJ, BJ | BIJ, BIJ | BAcct, BAcct
+  | BR, BR | BQ, BQ | BRI, BRI => true
   | BA, BI => true
   | BB, BI | BB, BJ | BB, BIJ => true
   | BIJ, BI | BIJ, BJ => true
+  | BR, BRI => true
   | _, _ => false
   end.
 
@@ -90,8 +100,9 @@ Definition ref_sub (x w : bty) : bool :=
   permits (fst w) (fst x) && base_sub (snd x) (snd w).
 
 (* runtime types of the values stored at target paths *)
-Inductive val : Type := VA | VB | VC.
-Definition val_base (v : val) : base := match v with VA => BA | VB => BB | VC => BC end.
+Inductive val : Type := VA | VB | VC | VR | VQ.   (* structs A B C, resources R Q *)
+Definition val_base (v : val) : base :=
+  match v with VA => BA | VB => BB | VC => BC | VR => BR | VQ => BQ end.
 
 Record cap : Type := mkCap { cap_id : Z; cap_addr : Z; cap_bt : bty }.
 
